@@ -104,7 +104,7 @@ class Bench:
         self.ss.tap = tap
         self.srv_service = Srv()
         self.server = Connection(self.srv_service, Channel(self.ss), config=dict(server_config or {}))
-        self.client = Connection(Cli(), Channel(self.sc), config={"sync_request_timeout": 5})
+        self.client = Connection(Cli(), Channel(self.sc), config={"sync_request_timeout": 30})   # generous: a loaded machine must not look like a lost response
         self.crashes = []
 
         def pump_server():
@@ -238,13 +238,18 @@ def run_stream(ctx, r, n_ops):
         expect.append((k2, kind2, oc2, res))
     usable = True
     try:
-        b.client.ping("still-alive", timeout=2)
+        b.client.ping("still-alive", timeout=30)
     except BaseException as e:
         usable = False
     return b, expect, raw_reqs, usable
 
 
 def check_stream(ctx, model, b, expect, raw_reqs, usable, case):
+    # release notices for proxies collected at the very end may still sit unread in the server's stream (nobody waits for them):
+    # let the server read what was sent before counting responses, and the client read the answers
+    for _ in range(10000):
+        if not (b.pump_server() or (b.ss.on_idle and b.ss.on_idle())):
+            break
     # ledger: every request frame from the client side must have exactly one response frame from the server side with its number
     reqs = [(s) for (who, k, s) in b.ledger if who == "cli" and k == R.MSG_REQUEST]
     resp = {}
@@ -392,7 +397,7 @@ def local_propagation(ctx, model, facts):
             except BaseException as e:
                 res = ("exc", type(e).__name__)
             try:
-                b.client.ping("x", timeout=2); usable = True
+                b.client.ping("x", timeout=30); usable = True
             except BaseException:
                 usable = False
             frames = [(k, q) for who, k, q in b.ledger if who == "srv" and k in (R.MSG_REPLY, R.MSG_EXCEPTION)]
@@ -432,7 +437,7 @@ def undecodable_response(ctx):
             res = ("exc", type(e).__name__)
         left = sorted(b.client._request_callbacks)
         try:
-            b.client.ping("x", timeout=2); usable = True
+            b.client.ping("x", timeout=30); usable = True
         except BaseException:
             usable = False
         case = {"undecodable_response": "ExceptionGroup"}
